@@ -321,10 +321,14 @@ func execute(t ev.TB, sc *Scenario, reps int) {
 		// A panic in a role is recovered (and reported); vouch may have been holding a
 		// lock at that point, so the rest of the scenario cannot be trusted to return.
 		panics := make([]atomic.Pointer[string], len(sc.Roles))
+		gids := make([]atomic.Int64, len(sc.Roles))    // goroutine id of each role
+		returned := make([]atomic.Bool, len(sc.Roles)) // set when the role is through
 		for i := range sc.Roles {
 			wg.Add(1)
 			go func(i int) {
 				defer wg.Done()
+				defer returned[i].Store(true)
+				gids[i].Store(goroutineID())
 				defer func() {
 					if r := recover(); r != nil {
 						p := fmt.Sprintf("%v\n%s", r, debug.Stack())
@@ -350,7 +354,7 @@ func execute(t ev.TB, sc *Scenario, reps int) {
 			return false
 		}
 		began := time.Now()
-		var sincePanic time.Time
+		var sincePanic, lastDeadlockCheck time.Time
 		tick := time.NewTicker(50 * time.Millisecond)
 	wait:
 		for {
@@ -363,6 +367,28 @@ func execute(t ev.TB, sc *Scenario, reps int) {
 						sincePanic = time.Now()
 					} else if time.Since(sincePanic) > 500*time.Millisecond {
 						break wait // the other roles are stuck behind what the panic left behind
+					}
+				}
+				if !panicked() && time.Since(began) > deadlockBound && time.Since(lastDeadlockCheck) > time.Second {
+					var stuck []int64
+					for i := range gids {
+						if !returned[i].Load() {
+							stuck = append(stuck, gids[i].Load())
+						}
+					}
+					sig, detail := detectDeadlock(stuck)
+					lastDeadlockCheck = time.Now()
+					if sig != "" {
+						select {
+						case <-done: // it did return after all
+							break wait
+						default:
+						}
+						tick.Stop()
+						ev.Violation(t, sig, sc, "repetition %d: %d of %d roles never return; every goroutine of vouch is parked on a lock, semaphore or channel inside vouch:\n%s", rep, len(stuck), len(sc.Roles), detail)
+						// (a listed open finding: counted) nothing more can be learnt from this instance
+						ev.Label("scenario-abandoned-after-deadlock")
+						return
 					}
 				}
 				if time.Since(began) > watchdog {
